@@ -167,14 +167,16 @@ def add_history_twins(rng, cases, every=7):
         out.append((t, qs))
         if ti % every != every - 1 or not qs or len(t.coefs) > 20000:
             continue
-        cand = [(d, i) for d in range(t.ndim) for i in range(1, t.nknots[d] - 1) if t.knots[d][i - 1] < t.knots[d][i + 1]]
+        cand = [(d, i) for d in range(t.ndim) for i in range(1, t.nknots[d] - 1) if t.knots[d][i - 1] < t.knots[d][i] < t.knots[d][i + 1]]
         if not cand:
             continue
         knots = [list(k) for k in t.knots]
         for d, i in [rng.choice(cand) for _ in range(rng.rint(1, 2))]:
             lo, hi = knots[d][i - 1], knots[d][i + 1]
-            new = lo + (hi - lo) * rng.choice([0.25, 0.5, 0.75, 0.0, 1.0])
-            if lo <= new <= hi:
+            # strictly between its neighbours: the multiplicity structure of the knot vector (which the queries were chosen for:
+            # derivative orders >= 2 only along strictly increasing knots) is that of the predecessor
+            new = lo + (hi - lo) * rng.choice([0.25, 0.5, 0.75])
+            if lo < new < hi:
                 knots[d][i] = new
         if knots == [list(k) for k in t.knots]:
             continue
